@@ -94,7 +94,7 @@ def CueTextTokenizer(cue_text: str):
     start_tag_class = 6
     end_tag = 7
     ts_tag = 8
-    annot_cref = 3
+    annot_cref = 9
 
   cue_text: str = cue_text
   position: int = 0
@@ -105,6 +105,7 @@ def CueTextTokenizer(cue_text: str):
     result: StringBuf = StringBuf()
     classes: List[str] = []
     buffer: StringBuf = StringBuf()
+    cref: StringBuf = StringBuf()
 
     # codepoint loop
     while True:
@@ -199,7 +200,7 @@ def CueTextTokenizer(cue_text: str):
 
         if c == ord("&"):
           state = _State.annot_cref
-          buffer = StringBuf("&")
+          cref = StringBuf("&")
         elif c in (ord(">"), EOF_MARKER):
           if c == ord(">"):
             position += 1
@@ -211,19 +212,14 @@ def CueTextTokenizer(cue_text: str):
 
       elif state is _State.annot_cref:
         if c == ord(";"):
-          coded_entity = str(buffer)
-          decoded_entity = html.unescape(coded_entity)
-          if decoded_entity == coded_entity:
-            result.extend(buffer)
-          else:
-            result.append(decoded_entity)
+          buffer.append(html.unescape(str(cref) + ";"))
           state = _State.start_tag_annot
-        elif c in (EOF_MARKER, ord(">")):
-          result.extend(buffer)
+        elif c in (EOF_MARKER, ord(">"), ord("&"), 0x09, 0x0A, 0x0C, 0x20):
+          buffer.extend(cref)
           state = _State.start_tag_annot
           continue
         else:
-          buffer.append(chr(c))
+          cref.append(chr(c))
 
       elif state is _State.end_tag:
         if c in (ord(">"), EOF_MARKER):
